@@ -48,8 +48,9 @@ def run(rep, tier, seed, prop, theorems, desc, oracle, oracle_name, n_graph=(60,
     rep.cov['samples'] = [{'disagreement': d} for d in cg['disagreements'][:2]] or [{'graph_stats': cg['stats']}, {'oracle': oracle_name, 'cases': ev}]
     broken = not (ok and c_ok and extra_ok)
     real = [f for f in fails]
-    if broken and not real:
-        ev2, real = oracle(seed + 1, n_search)
+    if broken and not [f for f in real if not _is_known(rep, f)]:
+        ev2, more = oracle(seed + 1, n_search)
+        real = real + more
         rep.cov['evaluations'] += ev2
     if real:
         report_fails(rep, real, oracle_name)
